@@ -1064,6 +1064,46 @@ func (env *SpecEnv) call(n *ECall) *Value {
 		}
 		t := x.eng.findType(ts.V)
 		return mkBool(BoolLit(t != nil && types.Identical(types.Unalias(v.T), t)))
+	case "mapdom", "mapval":
+		// mapdom(m, k): k is a key of the (integer-keyed) map m; mapval(m, k): the value stored under k
+		mv := env.eval(n.Args[0])
+		mt, ok := x.intKeyedMap(mv.T)
+		if !ok {
+			sfail("%s: not a map with an integer key type", id.Name)
+		}
+		k := env.asInt(env.eval(n.Args[1]))
+		dom, vals := x.mapKeys(mt)
+		if id.Name == "mapdom" {
+			return mkBool(And(Neq(mv.C[0], IntLit(0)), Select(Select(x.heapGet(env.st, dom), mv.C[0]), k)))
+		}
+		out := &Value{T: mt.Elem()}
+		for _, vk := range vals {
+			out.C = append(out.C, Select(Select(x.heapGet(env.st, vk), mv.C[0]), k))
+		}
+		return out
+	case "mapseen":
+		// mapseen(N, k): the range-over-map loop with ordinal N has already handed out key k
+		if env.frame == nil {
+			sfail("mapseen outside a function body")
+		}
+		lit, ok := n.Args[0].(*EInt)
+		if !ok {
+			sfail("mapseen(loopOrdinal, key)")
+		}
+		k := env.asInt(env.eval(n.Args[1]))
+		for h, lp := range env.frame.loops {
+			if int64(lp.ordinal) != lit.V.Int64() {
+				continue
+			}
+			for _, in := range h.Instrs {
+				if nx, ok := in.(*ssa.Next); ok {
+					if cell := env.st.locals[nx.Iter]; cell != nil && len(cell.C) == 1 {
+						return mkBool(Select(cell.C[0], k))
+					}
+				}
+			}
+		}
+		sfail("mapseen: loop %s is not a range over an integer-keyed map", lit.V.String())
 	case "zeros":
 		n0 := env.asInt(env.eval(n.Args[0]))
 		return seqVal(&SeqV{Len: n0, At: func(i Term) Term { return IntLit(0) }})
